@@ -98,7 +98,7 @@ def run_progs(lines, profile="debug", timeout=1800):
         for l in p.stdout.splitlines():
             tag, _, rest = l.partition(" ")
             if tag == "P":
-                cur = dict(id=rest, ev=[], X=[], Q=None, V=None, D=None, DM=None, E=None, K=None, I0=None)
+                cur = dict(id=rest, ev=[], X=[], Q=None, V=None, D=None, DM=None, E=None, K=None, I0=None, N=None)
                 recs[rest] = cur
                 last = rest
             elif cur is None:
@@ -108,7 +108,7 @@ def run_progs(lines, profile="debug", timeout=1800):
             elif tag == "X":
                 cur["X"].append(rest)
                 cur["ev"].append((tag, rest))
-            elif tag in ("Q", "V", "D", "DM", "E", "K", "I0"):
+            elif tag in ("Q", "V", "D", "DM", "E", "K", "I0", "N"):
                 cur[tag] = rest
         if p.returncode in (3, 4) and last is not None:
             k = [i for i, l in enumerate(pending) if l.split("|", 1)[0] == last][0]
